@@ -187,6 +187,77 @@ func c17TunnelNoise(n int) func() {
 	}
 }
 
+// msgKind builds telegram id in one of six shapes the clients hand to Inbound alike: group write,
+// extended application service (APCI 15 + service octet), transport control unit, confirmation,
+// individually addressed data, bus-monitor indication.
+func msgKind(id, kind int) cemi.Message {
+	ld := cemi.LData{Control1: cemi.Control1StdFrame | cemi.Control1NoRepeat, Control2: cemi.Control2GroupAddr | cemi.Control2Hops(6),
+		Source: cemi.IndividualAddr(0x1101), Destination: uint16(id), Data: &cemi.AppData{Command: cemi.GroupValueWrite, Data: []byte{byte(id & 63)}}}
+	switch kind {
+	case 1:
+		ld.Data = &cemi.AppData{Command: cemi.Escape, Data: []byte{0x15, 0x03, 0x05, 0x10, 0x01}}
+	case 2:
+		ld.Control2 = cemi.Control2Hops(6)
+		ld.Data = &cemi.ControlData{Command: 0}
+	case 3:
+		return &cemi.LDataCon{LData: ld}
+	case 4:
+		ld.Control2 = cemi.Control2Hops(6)
+		ld.Data = &cemi.AppData{Numbered: true, SeqNumber: 3, Command: cemi.MemoryRead, Data: []byte{0x02, 0x01, 0x16}}
+	case 5:
+		m := cemi.LBusmonInd{byte(id >> 8), byte(id), 0xBC, 0x11, 0x01}
+		return &m
+	}
+	return &cemi.LDataInd{LData: ld}
+}
+
+func msgKindID(m interface{}) int {
+	if b, ok := m.(*cemi.LBusmonInd); ok && len(*b) >= 2 {
+		return int((*b)[0])<<8 | int((*b)[1])
+	}
+	return MsgID(m)
+}
+
+// c17Mixed: a burst of three telegrams whose shapes the environment chooses (6^3), through the tunnel
+// or the router client: the order (and completeness) of the hand-over must not depend on what a
+// telegram carries.
+func c17Mixed(router bool) func() {
+	return func() {
+		const n = 3
+		sock := fakesock.New("udp")
+		var recv func() (interface{}, bool)
+		var closeFn func()
+		if router {
+			r, _ := knx.NewRouterOnSocket(sock, knx.RouterConfig{RetainCount: 4})
+			recv, closeFn = func() (interface{}, bool) { m, ok := r.Inbound().Recv2(); return m, ok }, r.Close
+		} else {
+			NewGateway(sock, 7)
+			t, err := knx.NewTunnelOnSocket(sock, knxnet.TunnelLayerData, TCfg(100, 350, 100000))
+			if err != nil {
+				mc.Log(Note("connect failed: " + err.Error()))
+				return
+			}
+			recv, closeFn = func() (interface{}, bool) { m, ok := t.Inbound().Recv2(); return m, ok }, t.Close
+		}
+		for i := 0; i < n; i++ {
+			m := msgKind(i, mc.Choose(6, mc.Free))
+			if router {
+				sock.Deliver(&knxnet.RoutingInd{Payload: m})
+			} else {
+				sock.Deliver(&knxnet.TunnelReq{Channel: 7, SeqNumber: uint8(i), Payload: m})
+			}
+		}
+		c17Consumer(n, func() (interface{}, bool) {
+			m, ok := recv()
+			if !ok {
+				return nil, false
+			}
+			return &cemi.LDataInd{LData: cemi.LData{Destination: uint16(msgKindID(m))}}, true
+		}, "mixed")
+		closeFn()
+	}
+}
+
 // c17TunnelReconnect: two telegrams are parked (reader stalled), the gateway ends the connection,
 // the client reconnects, two more telegrams arrive at later instants, then the reader drains.
 func c17TunnelReconnect() func() {
@@ -334,11 +405,13 @@ func init() {
 			})
 		}
 		register("both", &h.Scenario{
-			Name: fmt.Sprintf("C17-%s-flat64", k.name), Prop: "C17", P: 0, F: 0, D: -1,
-			Run: k.f(64), Check: c17Oracle("C17", 64, k.site, k.attr),
+			Name: fmt.Sprintf("C17-%s-flat100", k.name), Prop: "C17", P: 0, F: 0, D: -1,
+			Run: k.f(100), Check: c17Oracle("C17", 100, k.site, k.attr),
 		})
 	}
 	register("both", &h.Scenario{Name: "C17-tunnel-burst3-between-turned-down-frames", Prop: "C17", P: 1, F: 0, D: 1, Run: c17TunnelNoise(3), Check: c17Oracle("C17", 3, "tunnel.go:pushInbound", true)})
+	register("both", &h.Scenario{Name: "C17-tunnel-burst3-mixed-telegram-shapes", Prop: "C17", P: 1, F: 0, D: 1, Run: c17Mixed(false), Check: c17Oracle("C17", 3, "tunnel.go:pushInbound", true)})
+	register("both", &h.Scenario{Name: "C17-router-burst3-mixed-telegram-shapes", Prop: "C17", P: 1, F: 0, D: 1, Run: c17Mixed(true), Check: c17Oracle("C17", 3, "router.go:pushInbound", false)})
 	register("both", &h.Scenario{Name: "C17-tunnel-parked-across-reconnect", Prop: "C17", P: 1, F: 0, D: 1, Run: c17TunnelReconnect(), Check: c17OracleR("C17", 5, "tunnel.go:pushInbound", false, true)})
 	// unbounded preemptions for the smallest burst (classic context bounding with P=2, no delay bound)
 	register("thorough", &h.Scenario{Name: "C17-tunnel-burst2-p2", Prop: "C17", P: 2, F: 0, D: 0, Run: c17Tunnel(2), Check: c17Oracle("C17", 2, "tunnel.go:pushInbound", true), MaxExe: 3000000})
